@@ -32,8 +32,11 @@ def rule_modes(chk: Check, model, rid: str):
     r = ev.run_function(fi)
     mode = S("supergraph")
     raises = [e for e in r.events if e.kind == "raise" and mentions(e.guard, "supergraph") and mentions(e.guard, "Supergraph")]
+    # isinstance(supergraph, Supergraph) holds for every member and for nothing else
+    isinst = {x for e in raises for x in T.walk(e.guard) if x[0] == "call" and T.call_name(x) == "isinstance" and len(x[2]) == 2 and x[2][0] == mode
+              and x[2][1][0] == "sym" and x[2][1][1].endswith("constants.Supergraph")}
     for m in members:
-        val = {mode: S(f"rex.constants.Supergraph.{m}")}
+        val = {mode: S(f"rex.constants.Supergraph.{m}"), **{x: T.TRUE for x in isinst}}
         ok = True
         miss = []
         for attr in ("_S", "_S_init_to_S", "_Gs_monomorphism"):
@@ -43,7 +46,7 @@ def rule_modes(chk: Check, model, rid: str):
                 miss.append(attr)
         rz = [e for e in raises if T.subst(e.guard, val) != T.FALSE]
         chk.add(rid, f"mode {m}", ok and not rz, f"supergraph mode {m}: {'undefined ' + str(miss) if miss else ''}{' raises' if rz else ''}", chk.loc(fi))
-    other = {mode: S("rex.constants.Supergraph.__OTHER__")}
+    other = {mode: S("rex.constants.Supergraph.__OTHER__"), **{x: T.FALSE for x in isinst}}
     ok = any(T.subst(e.guard, other) != T.FALSE and not mentions(T.subst(e.guard, other), "supergraph") for e in raises)
     chk.add(rid, "unknown mode raises", ok, "an unknown supergraph mode must raise instead of falling through", chk.loc(fi))
     # the monomorphisms are evaluated on the same graphs that define S
